@@ -596,6 +596,7 @@ def judge(history, run, ctx, st=None):
     findings = []
     api_set = set()          # names whose value was accepted through the API in this session: the files can no longer change them
     file_versions = []       # contents of the user's prefs.yaml written so far
+    file_pending = [False]   # a rewritten file may still be unread (it was rewritten while CheckRuleFiles=None switched re-reading off)
 
     def explained(m, val):
         """the user's prefs.yaml was rewritten: a preference that was never set through the API may take the value a version of the file gives
@@ -631,6 +632,8 @@ def judge(history, run, ctx, st=None):
                 break                                           # C08's business; the session may be poisoned
             if op[0] == "userfile":
                 file_versions.append(dict(op[1]))
+                if p.get("CheckRuleFiles", ("ok", ""))[1] == "None":
+                    file_pending[0] = True
                 if st:
                     st.count("user_prefs_file_rewritten")
                     followed = [m for m in diff_p(p, p2) if m in op[1] and m not in api_set]
@@ -716,38 +719,35 @@ def judge(history, run, ctx, st=None):
             add("side-effect", "%s changed %s" % (n if n in SPECIAL else kind, ",".join(side[:3])), i,
                 "Ok set_preference(%r, %r) also changed: %s" % (n, v[:80], "; ".join("%s %r -> %r" % (m, p[m], p2[m]) for m in side[:5])), True)
             break
-        if file_versions and n in ("Language", "LanguageAuto", "DecimalSeparator"):
+        if file_pending[0] and n in ("Language", "LanguageAuto", "DecimalSeparator"):
             if st:
-                st.count("separator_derivations_not_judged(after the user's prefs.yaml changed)")
+                st.count("separator_derivations_not_judged(a rewritten user prefs.yaml may still be unread)")
         elif n in ("Language", "LanguageAuto", "DecimalSeparator") and "DecimalSeparators" in p2 and "Language" in p2 and "DecimalSeparator" in p2:
             old = (p["DecimalSeparators"][1], p["BlockSeparators"][1])
             new = (p2["DecimalSeparators"][1], p2["BlockSeparators"][1])
             lang_now, dec_now = p2["Language"][1], p2["DecimalSeparator"][1]
             lang_auto = p2.get("LanguageAuto", ("err", ""))[1] if p2.get("LanguageAuto", ("err",))[0] == "ok" else ""
+            # The separators are a function of the decimal mark and the LANGUAGE IN USE (Language, or under Language=Auto the language given
+            # with LanguageAuto; prefs.rs language_in_use).  They are derived again exactly when one of the two really changes; a call that
+            # changes neither (Language=Auto taking over the fixed language, Auto again, LanguageAuto naming the language already in use,
+            # the same value again) must leave explicitly set separators alone, and a custom decimal mark switches the derivation off.
+            eff0, eff1 = language_in_use(p), language_in_use(p2)
+            dec0 = p["DecimalSeparator"][1]
             if dec_now not in ("Auto", ",", "."):
-                allowed = {old}                                 # documented: custom separators are left alone
-            elif lang_now == "Auto":
-                # Language=Auto: the language in use is the one given with LanguageAuto, or not known yet.  The documentation leaves open
-                # whether the separators follow LanguageAuto (C10's subject), so both readings are accepted; only a change of an explicit
-                # decimal mark must show
-                allowed = set()
-                if dec_now in (",", "."):
-                    allowed |= separator_pairs("Auto", dec_now)
-                if lang_auto and lang_auto != "Auto":
-                    allowed |= separator_pairs(lang_auto, dec_now)
-                if dec_now == "Auto":
-                    allowed |= separator_pairs("en", dec_now)    # fallback language while nothing is known
-                if not (n == "DecimalSeparator" and p[n] != p2[n] and dec_now in (",", ".")):
-                    allowed |= {old}
+                allowed, why = {old}, "DecimalSeparator is custom: the separators are the application's"
+            elif eff0 != eff1 or dec0 != dec_now:
+                allowed, why = separator_pairs(eff1, dec_now), "language in use %r -> %r, DecimalSeparator %r -> %r: derived again" % (eff0, eff1, dec0, dec_now)
             else:
-                allowed = separator_pairs(lang_now, dec_now)
-                if p[n] == p2[n] or (language_in_use(p) == language_in_use(p2) and p["DecimalSeparator"] == p2["DecimalSeparator"]):
-                    allowed = allowed | {old}                   # neither the decimal mark nor the language in use changed: nothing has to be recomputed
+                allowed, why = {old}, "neither the language in use (%r) nor DecimalSeparator changed: the separators that were set stay" % eff1
+            if st and old not in separator_pairs(eff0, dec0 if dec0 in ("Auto", ",", ".") else "Auto"):
+                st.count("language_or_mark_calls_with_explicit_separators_in_force")
+                if allowed == {old}:
+                    st.count("explicit_separators_must_survive_judgements")
             if st:
                 st.count("separator_derivations_judged")
             if new not in allowed:
-                add("derived-separators", "after %s" % n, i, "Language=%r LanguageAuto=%r DecimalSeparator=%r: DecimalSeparators/BlockSeparators are %r, documented derivation allows %r" % (
-                    lang_now, lang_auto, dec_now, new, sorted(allowed)), True)
+                add("derived-separators", "after %s" % n, i, "Language=%r LanguageAuto=%r DecimalSeparator=%r: DecimalSeparators/BlockSeparators %r -> %r, expected %r (%s)" % (
+                    lang_now, lang_auto, dec_now, old, new, sorted(allowed), why), True)
                 break
         # independence, limited to what is documented
         protected = protected_outputs(n, ctx, p, p2)
@@ -1062,6 +1062,24 @@ def gen_history(rng, ctx, length):
         pos = sorted(rng.randint(0, len(h)) for _ in steps)
         for k, (at, step) in enumerate(zip(pos, steps)):
             h.insert(at + k, step)
+    # the documented way to give the separators explicitly (DecimalSeparator: Custom, then both lists), followed by Language / LanguageAuto
+    # calls that do and do not change the language in use
+    if rng.random() < 0.3:
+        lang = rng.choice(ctx.safe_languages + ["de", "fr", "de-ch"])
+        steps = []
+        if rng.random() < 0.8:
+            steps.append(["set", "Language", lang])
+        if rng.random() < 0.65:
+            steps.append(["set", "DecimalSeparator", "Custom"])
+        steps.append(["set", "DecimalSeparators", rng.choice([".", ",", ".,", "\u066b"])])
+        steps.append(["set", "BlockSeparators", rng.choice([", ", ". ", " ", "'", ",", NBSP])])
+        for _ in range(rng.randint(1, 4)):
+            steps.append(rng.choice([["set", "Language", "Auto"], ["set", "Language", "Auto"], ["set", "LanguageAuto", lang], ["set", "Language", lang],
+                                     ["set", "Language", rng.choice(ctx.safe_languages)], ["set", "LanguageAuto", rng.choice(ctx.safe_languages)],
+                                     ["set", "DecimalSeparator", rng.choice(["Auto", ".", ",", "Custom"])]]))
+        pos = sorted(rng.randint(0, len(h)) for _ in steps)
+        for k, (at, step) in enumerate(zip(pos, steps)):
+            h.insert(at + k, step)
     return h
 
 
@@ -1194,10 +1212,12 @@ def run(tier, seed):
             or stats.counters.get("api_set_preferences_contradicted_by_rewritten_file", 0) < 10 \
             or stats.counters.get("preferences_seen_following_the_rewritten_file", 0) < 10 \
             or stats.counters.get("accepted_LanguageAuto_sets", 0) < 5 \
-            or stats.counters.get("engine_parameter_changed_under_TTS_None_on_speech_with_pauses", 0) < 20:
+            or stats.counters.get("engine_parameter_changed_under_TTS_None_on_speech_with_pauses", 0) < 20 \
+            or stats.counters.get("explicit_separators_must_survive_judgements", 0) < 20:
         stats.notes.append("too few observations of one of: accepted sets, rejections, persistence judgements, separator derivations, "
                            "API-set preferences contradicted by a rewritten user prefs.yaml, preferences following the rewritten file (= it was "
-                           "really read again), accepted sets of LanguageAuto, engine parameters changed under TTS=None on speech that has pauses")
+                           "really read again), accepted sets of LanguageAuto, engine parameters changed under TTS=None on speech that has pauses, "
+                           "Language/LanguageAuto/DecimalSeparator calls that must leave explicitly set separators alone")
         need = 10 ** 9
     return core.conclude(
         PROP, tier, seed, "exploration", stats, extra,
@@ -1206,8 +1226,10 @@ def run(tier, seed):
          "3-8 letter first sub-tags, inf/nan for numbers and boolean-looking words for text preferences may be answered either way",
          "an Err answer of set_preference must leave every preference and every output unchanged, whatever the reason of the error",
          "after the user's prefs.yaml was rewritten, a preference that was accepted through the API before keeps the API's value; one that was never set "
-         "through the API may take the file's value at any later call; DecimalSeparators/BlockSeparators/LanguageAuto follow the re-read and the separator "
-         "derivation is not judged for the rest of that history",
+         "through the API may take the file's value at any later call; DecimalSeparators/BlockSeparators/LanguageAuto follow the re-read; the separator "
+         "derivation is not judged while a rewritten file may still be unread (it was rewritten under CheckRuleFiles=None)",
+         "the separators are a function of DecimalSeparator and the language in use (Language, or LanguageAuto under Language=Auto, 'en' while none is "
+         "known): derived again exactly when one of the two changes, left alone otherwise and whenever DecimalSeparator is a custom value",
          "independence is only judged for preferences of the Braille group of prefs.yaml (must not change MathML/speech/overview) and of the Speech group "
          "plus the documented speech-engine API preferences (must not change braille); get_navigation_node_from_braille_position is left to C20"],
         t0,
